@@ -25,6 +25,10 @@ Expected(e) ==
       [] e.op = "address_decode" ->
             LET a == AddressDecode(FromHex(e.s)) IN IF a.ok THEN [refused |-> FALSE, spk |-> ToHex(a.spk), net |-> a.net] ELSE Refusal
       [] e.op = "address_encode" -> [refused |-> FALSE, v |-> ToHex(AddressEncode(FromHex(e.spk), e.net))]
+      \* a hash written as a Base58Check address: 21 octets, a version and a 20-octet hash -- a payload of another size is no address (what is written is read back)
+      [] e.op = "b58_address" ->
+            IF Len(FromHex(e.payload)) # 20 THEN Refusal
+            ELSE [refused |-> FALSE, v |-> ToHex(Check58(<<IF e.type = "p2pkh" THEN P2PKHVersion(e.net) ELSE P2SHVersion(e.net)>> \o FromHex(e.payload)))]
       [] e.op = "wif_decode" ->
             LET w == WIFDecode(FromHex(e.s)) IN
             IF w.ok THEN [refused |-> FALSE, key |-> ToHex(w.key), compressed |-> w.compressed, net |-> w.net] ELSE Refusal
@@ -33,7 +37,9 @@ Expected(e) ==
       [] e.op = "keyinfo" -> LET k == KeyNetwork(e.kind, FromHex(e.prefix), e.declared) IN IF k.ok THEN [refused |-> FALSE, net |-> k.net] ELSE Refusal
       \* the address of a key on a named network: the key is e.sec whatever spelling it was passed in
       \* (kind "sec": bare octets, no prefix to disagree with the network)
+      \* (a witness v0 key hash commits to a compressed key: an uncompressed one has no p2wpkh address, native or wrapped)
       [] e.op = "keyaddr" -> IF e.kind # "sec" /\ ~KeyNetwork(e.kind, FromHex(e.prefix), e.net).ok THEN Refusal
+                             ELSE IF e.fn \in {"p2wpkh", "p2wpkh_p2sh"} /\ Len(FromHex(e.sec)) # 33 THEN Refusal
                              ELSE [refused |-> FALSE, v |-> ToHex(AddressEncode(SpkOfKey(e.fn, FromHex(e.sec)), ClassOf(e.net)))]
       \* several keys in one script: every key that names a network type names the same one, and the declared one when a network is declared
       [] e.op = "multikey" -> LET types == {PrefixType(e.keys[k].kind, FromHex(e.keys[k].prefix)) : k \in {j \in 1..Len(e.keys) : e.keys[j].kind # "sec"}}
